@@ -105,8 +105,11 @@ def run(rep, tier, rng):
             continue
         desc = G.describe(s)
         if c.status == "compile_fail":
-            codes = sorted({str(d["code"]) for d in c.diags if d["level"] == "error"})
-            msg = next((d["message"] for d in c.diags if d["level"] == "error"), "")
+            # the control (same user-written pieces without derive_ex) compiled, so the failure is the macro's
+            d0 = next((d for d in c.diags if d["level"] == "error" and d["in_derive_ex"]), None) or \
+                next((d for d in c.diags if d["level"] == "error"), {"code": None, "message": "?"})
+            codes = [str(d0["code"])]
+            msg = d0["message"] or ""
             rep.count("types_compile_fail")
             sigs.setdefault(f"C06|compile_fail|{'+'.join(codes)}|{msg[:50]}", []).append(
                 (s, f"accepted placement does not compile ({msg[:160]}): {desc}", {"spec": s, "diags": c.diags[:4], "code": c.code}))
